@@ -447,6 +447,15 @@ func valueSubjects(c ValCase) []subject {
 		})
 	}
 	out = append(out, subject{
+		name: "Data.Clone", sameType: true,
+		mk:    func() any { d := c.State.App.DataFor(c.State.Op); return &d },
+		clone: func(o any) any { cl := (*o.(*channel.Data)).Clone(); return &cl },
+		obs: func(x any) string {
+			b, err := (*x.(*channel.Data)).MarshalBinary()
+			return fmt.Sprintf("%x/%v", b, err)
+		},
+	})
+	out = append(out, subject{
 		name: "Params.Clone", sameType: true,
 		mk:    func() any { return c.Params.Build(nil) },
 		clone: func(o any) any { return o.(*channel.Params).Clone() },
@@ -562,14 +571,14 @@ func runValCase(c ValCase) *h.Outcome {
 	return o
 }
 
-const ruleValues = "one generated state (1-4 assets, 1-5 participants, balances up to 128 bytes, 0-3 locked entries with index maps nil/empty/valid/arbitrary, app none/payment/mock) with an optional shape modifier (nil or empty Locked, nil Backends/Assets/Balances, empty Balances, nil or empty rows, zero Allocation, nil locked balances, nil index maps), one parameter set (2-5 participants: pool keys, arbitrary and tiny 64-byte addresses; nonce 0..2^256-1; aux) and one signature list (nil slice, empty slice, or per entry nil / empty / 1-70 raw bytes / valid signature; any length). Subjects built from them, each from fresh memory: State.Clone, Allocation.Clone, Balances.Clone, CloneBals (a row, a locked entry), CloneIndexMap, a SubAlloc through Allocation.Clone, Params.Clone, channel.CloneAddresses, wallet.CloneAddressesMap, wallet.CloneAddress, wallet.CloneAddresses, Transaction.Clone (also with nil state), wallet.CloneSigs. Oracle per subject: (a) the type's Equal, identical native encoding/accessors, identical structural dump (reflection over all fields incl. unexported; nil == empty); (b) every mutable leaf and pointer-like slot reachable from the clone is mutated in place (scalars, bytes of ids/aux/signatures, index-map entries, big-integer words incl. nonce and address coordinates, map entries, slice/pointer/interface slots) and the original's encoding, accessors and structural dump must be byte-identical to before; then the same with a second clone and the original mutated; (c) the memory regions owned by the two object graphs (pointees, slice backing arrays within len, big-integer words, map identities) must not overlap. Not traversed: channel.App/StateApp/ActionApp, channel.Asset, wallet.Account values, fields tagged cloneable:\"shallow\", elliptic.Curve, the logger embedding, zero-size pointees. non-trivial = a locked entry with a non-empty index map or a partial signature set (some nil, some set); distinct by SHA-256 of the canonical case JSON"
+const ruleValues = "one generated state (1-4 assets, 1-5 participants, balances up to 128 bytes, 0-3 locked entries with index maps nil/empty/valid/arbitrary, app none/payment/mock) with an optional shape modifier (nil or empty Locked, nil Backends/Assets/Balances, empty Balances, nil or empty rows, zero Allocation, nil locked balances, nil index maps), one parameter set (2-5 participants: pool keys, arbitrary and tiny 64-byte addresses; nonce 0..2^256-1; aux) and one signature list (nil slice, empty slice, or per entry nil / empty / 1-70 raw bytes / valid signature; any length). Subjects built from them, each from fresh memory: State.Clone, Allocation.Clone, Balances.Clone, CloneBals (a row, a locked entry), CloneIndexMap, a SubAlloc through Allocation.Clone, Data.Clone, Params.Clone, channel.CloneAddresses, wallet.CloneAddressesMap, wallet.CloneAddress, wallet.CloneAddresses, Transaction.Clone (also with nil state), wallet.CloneSigs. Oracle per subject: (a) the type's Equal, identical native encoding/accessors, identical structural dump (reflection over all fields incl. unexported; nil == empty); (b) every mutable leaf and pointer-like slot reachable from the clone is mutated in place (scalars, bytes of ids/aux/signatures, index-map entries, big-integer words incl. nonce and address coordinates, map entries, slice/pointer/interface slots) and the original's encoding, accessors and structural dump must be byte-identical to before; then the same with a second clone and the original mutated; (c) the memory regions owned by the two object graphs (pointees, slice backing arrays up to cap, big-integer words, map identities) must not overlap. Not traversed: channel.App/StateApp/ActionApp, channel.Asset, wallet.Account values, fields tagged cloneable:\"shallow\", elliptic.Curve, the logger embedding, zero-size pointees. non-trivial = a locked entry with a non-empty index map or a partial signature set (some nil, some set); distinct by SHA-256 of the canonical case JSON"
 
 func TestCloneValues(t *testing.T) {
 	rec := h.Begin("C19", "values")
 	rec.SetRule(ruleValues,
 		"states carry non-nil Data and non-nil big integers (State.Clone / CloneBals dereference them, as every caller guarantees)",
 		"documented sharing is exempt: app definitions, asset identifiers, signing accounts (fields tagged cloneable:\"shallow\"); additionally treated as immutable: elliptic.Curve singletons and the logger held by log.Embedding",
-		"capacity beyond len of a slice is not observable through the other value and is not compared",
+		"slice memory beyond len is compared for disjointness (clause c) but not for content: it is not observable through the other value before an append",
 		"participant keys come from a per-process pool; addresses are rebuilt from their bytes so that the harness never mutates the pool accounts")
 	defer rec.Flush()
 	rapid.Check(t, func(rt *rapid.T) {
